@@ -35,7 +35,7 @@ try:
         meta["demo_patched_tail"] = out1[-400:]
         if "--no-tests" not in sys.argv:
             base = json.load(open("/root/.vp/BASELINE.json"))["stable_pass"]
-            rc2, out2 = sh("unshare -n sh -c 'ip link set lo up; ip route add default dev lo 2>/dev/null; timeout 1500 /venv/bin/python -m pytest -q -p no:cacheprovider --timeout=300 --continue-on-collection-errors --junitxml=/tmp/seedtest-%s.xml tests'" % sid, cwd=scratch, env=env, timeout=1600)
+            rc2, out2 = sh("unshare -n sh -c 'ip link set lo up; ip route add default dev lo 2>/dev/null; timeout 1500 /venv/bin/python -m pytest -q -p no:cacheprovider --timeout=300 --continue-on-collection-errors --ignore=tests/test_gdb.py --junitxml=/tmp/seedtest-%s.xml tests'" % sid, cwd=scratch, env=env, timeout=1600)
             import xml.etree.ElementTree as ET
             passed = set()
             try:
